@@ -186,5 +186,12 @@ ldb_set_current_file(const char *dbname, uint64_t desc_number) {
   if (rc != LDB_OK)
     ldb_remove_file(tmp);
 
+  /* Make the switch durable before the caller removes the files
+     that only the previous MANIFEST still refers to. The rename has
+     happened, so a failure here must not be reported as a failed switch
+     (callers would remove the MANIFEST that CURRENT now names). */
+  if (rc == LDB_OK)
+    ldb_sync_dir(dbname);
+
   return rc;
 }
